@@ -132,6 +132,16 @@ def run_case(report, drv, store, evs, now, tag):
         bad = coherence_violations(_KVView(store))
         if bad:
             report.property_failure("kv: keyspace incoherent after GC: %r" % (bad[:2],), payload, None)
+    else:
+        d = store.dump()
+        have = set(d["events"])
+        orphans = [t for t in d["tags"] if t.split("|")[0] not in have]
+        if orphans:
+            report.property_failure("sql%s: the pass at %d left %d tag-index rows of removed events behind (e.g. %s)"
+                                    % (" (pass overlapping a streaming reader)" if getattr(store, "gc_overlap", False) else "",
+                                       now, len(orphans), orphans[0][:90]), {**payload, "overlap": getattr(store, "gc_overlap", False)}, None)
+        if getattr(store, "gc_overlap", False):
+            report.count("passes_sql_overlapping_reader")
     report.case((store.backend, tag, now, repr([(e["kind"], expirations(e)) for e in evs])), nontrivial=bool(removed),
                 sample={"backend": store.backend, "now": now, "events": [(e["kind"], expirations(e)) for e in evs[:8]],
                         "removed": len(removed)})
@@ -213,12 +223,17 @@ class _KVView:
 def run(report, tier, seed):
     rng = random.Random(seed)
     drv = common.Driver()
-    stores = [KVStore(), SQLStore()]
+    # a third store: SQLite on a file (a real connection pool), its passes overlapping a reader that holds a connection
+    fdir = common.scratch_dir("nrc17-")
+    overlapped = SQLStore(url="sqlite+aiosqlite:///%s/gc.sqlite3" % fdir)
+    overlapped.gc_overlap = True
+    stores = [KVStore(), SQLStore(), overlapped]
     report.coverage["rule"] = (
         "stores of 3-14 events with kinds 1/7/19999/20000/20001/29999/30000/10002 and expiration tags T-1, T, T+1, 1, "
         "999, 11-digit far future, malformed ('1700abc', '', ' 1700000000', '-5', leading zero), two expiration tags; a "
         "pass at T-1 / T / T+1; two passes of one long-lived collector with events arriving in between (also already expired "
-        "ones); both backends; non-trivial = the pass removed something")
+        "ones); both backends, SQL also on a file-backed database with the pass overlapping a reader that holds a pooled "
+        "connection (tag rows must go with their events on whichever connection the pass gets); non-trivial = the pass removed something")
     report.assumptions += ["clock: `time` of the storage module replaced by a constant",
                            "LMDB: ephemeral kinds are never stored through add_event (they are only broadcast)"]
     try:
@@ -229,16 +244,23 @@ def run(report, tier, seed):
                     run_case(report, drv, st, r["events"], r["now"], "finding:" + e["id"])
         for i in range(12 if tier == "quick" else 300):
             for st in stores:
+                if st is overlapped and i % 3:
+                    continue
                 two_pass_case(report, drv, st, rng, i)
         for i in range(80 if tier == "quick" else 2000):
             evs = gen_store(rng)
             now = T + rng.choice([-1, 0, 0, 1])
             for st in stores:
+                if st is overlapped and i % 4:
+                    continue
                 run_case(report, drv, st, evs, now, i)
     finally:
         for st in stores:
             st.close()
         drv.close()
+        import shutil
+
+        shutil.rmtree(fdir, ignore_errors=True)
 
 
 def replay(report, path):
@@ -247,11 +269,15 @@ def replay(report, path):
     data = json.load(open(path))
     drv = common.Driver()
     stores = {"kv": KVStore(), "sql": SQLStore()}
+    fdir = common.scratch_dir("nrc17-")
     try:
         for it in (data.get("violations") or []) + (data.get("correspondence_breaks") or []):
             r = it.get("replay") or it.get("input")
+            if r.get("overlap") and "sql-overlap" not in stores:
+                stores["sql-overlap"] = SQLStore(url="sqlite+aiosqlite:///%s/gc.sqlite3" % fdir)
+                stores["sql-overlap"].gc_overlap = True
             if "backend" in r:
-                run_case(report, drv, stores[r["backend"]], r["events"], r["now"], "replay")
+                run_case(report, drv, stores["sql-overlap" if r.get("overlap") else r["backend"]], r["events"], r["now"], "replay")
     finally:
         for st in stores.values():
             st.close()
